@@ -9,6 +9,7 @@ import (
 	"os"
 	"os/exec"
 	"path/filepath"
+	"regexp"
 	"runtime"
 	"sort"
 	"strconv"
@@ -365,10 +366,27 @@ func CoordinatorMain(o *Opts) int {
 		return 2
 	}
 	known := map[string]Known{}
+	var knownGlobs []knownGlob
 	for _, k := range kf.Findings {
-		if k.Property == o.ID {
+		if k.Property != o.ID {
+			continue
+		}
+		if strings.Contains(k.Key, "*") {
+			knownGlobs = append(knownGlobs, knownGlob{re: globRegexp(k.Key), k: k})
+		} else {
 			known[k.Key] = k
 		}
+	}
+	lookup := func(key string) (Known, bool) {
+		if kn, ok := known[key]; ok {
+			return kn, true
+		}
+		for _, g := range knownGlobs {
+			if g.re.MatchString(key) {
+				return g.k, true
+			}
+		}
+		return Known{}, false
 	}
 	var keys []string
 	for k := range merged.Findings {
@@ -386,10 +404,14 @@ func CoordinatorMain(o *Opts) int {
 	})
 	var knownHit []string
 	var novel []*Finding
+	printedKnown := map[string]bool{}
 	for _, k := range keys {
-		if kn, ok := known[k]; ok {
+		if kn, ok := lookup(k); ok {
 			knownHit = append(knownHit, k)
-			fmt.Printf("KNOWN-FINDING: property=%s %s [%s] (%d cases)\n", o.ID, oneLine(kn.Description), k, merged.Findings[k].Count)
+			if !printedKnown[kn.Key] { // one line per listed finding, not per matching key
+				printedKnown[kn.Key] = true
+				fmt.Printf("KNOWN-FINDING: property=%s %s [%s] (first witness key %s)\n", o.ID, oneLine(kn.Description), kn.Key, k)
+			}
 		} else {
 			novel = append(novel, merged.Findings[k])
 		}
@@ -568,6 +590,21 @@ func ReplayMain(o *Opts) int {
 	}
 	fmt.Printf("not reproduced on this tree: %s\n", rp.Key)
 	return 0
+}
+
+type knownGlob struct {
+	re *regexp.Regexp
+	k  Known
+}
+
+// globRegexp: a known-finding key may use '*' inside a field; it matches any
+// run of characters that does not cross a field separator '|'.
+func globRegexp(key string) *regexp.Regexp {
+	parts := strings.Split(key, "*")
+	for i := range parts {
+		parts[i] = regexp.QuoteMeta(parts[i])
+	}
+	return regexp.MustCompile("^" + strings.Join(parts, `[^|]*`) + "$")
 }
 
 func mustJSON(v any) string { b, _ := json.Marshal(v); return string(b) }
